@@ -60,6 +60,19 @@ func (core *JApiCore) checkUserType(name string) *jerr.JApiError {
 	return d.BodyErrorIndex(e.Message(), e.Index())
 }
 
+// userTypeSchemaError locates an error found while the schema of the user type
+// `name` is checked. The fault may sit in a type used by this one: the schema
+// library then names that type, and its index points into the body of that type.
+func (core *JApiCore) userTypeSchemaError(err error, name string) *jerr.JApiError {
+	var e kit.Error
+	if stdErrors.As(err, &e) && e.IncorrectUserType() != "" && e.IncorrectUserType() != name {
+		if d := core.rawUserTypes.GetValue(e.IncorrectUserType()); d != nil {
+			return jschemaToJAPIError(err, d)
+		}
+	}
+	return jschemaToJAPIError(err, core.rawUserTypes.GetValue(name))
+}
+
 func jschemaToJAPIError(err error, d *directive.Directive) *jerr.JApiError {
 	var e kit.Error
 	if stdErrors.As(err, &e) {
